@@ -1,7 +1,130 @@
-"""E2: run the Kani harnesses registered for a property (filled in by kani/harnesses.json)."""
-import json, os
+"""E2: run the Kani harnesses registered for a property in kani/harnesses.json."""
+import json, os, re, subprocess, time, shutil
+
+ROOT = os.path.dirname(os.path.dirname(os.path.abspath(__file__)))
+
+FUNCS = {
+    "arith": ["zkabacus_crypto::{MerchantBalance,CustomerBalance}::{try_new, apply, try_add, to_scalar, into_inner}", "zkabacus_crypto::Balance::{try_new, TryFrom<u64>}",
+              "zkabacus_crypto::PaymentAmount::{pay_merchant, pay_customer, to_scalar, to_i64}", "serde/bincode decode of CustomerBalance, MerchantBalance, PaymentAmount"],
+    "serdeh": ["zkchannels_crypto::serde: SerializeElement for [G; N], Box<[G; N]>, Vec<G> (visitors), big_boxed_array"],
+    "range": ["zkchannels_crypto::proofs::RangeConstraintBuilder::generate_constraint_commitments"],
+}
+
+
+def parse(out):
+    """split cargo-kani output per harness"""
+    res = {}
+    cur = None
+    for line in out.splitlines():
+        m = re.match(r"Checking harness (\S+?)\.\.\.", line.strip())
+        if m:
+            cur = m.group(1)
+            res[cur] = {"status": None, "failed": [], "time": None, "unwind_fail": False, "lines": []}
+            continue
+        if cur is None:
+            continue
+        r = res[cur]
+        s = line.strip()
+        if s.startswith("VERIFICATION:-"):
+            r["status"] = s.split(":-")[1].strip().split()[0]
+        elif s.startswith("Failed Checks:"):
+            f = s[len("Failed Checks:"):].strip()
+            r["failed"].append(f)
+            if "unwinding assertion" in f:
+                r["unwind_fail"] = True
+        elif s.startswith("Verification Time:"):
+            try:
+                r["time"] = float(s.split(":")[1].strip().rstrip("s"))
+            except Exception:
+                pass
+        elif "Status: ERROR" in s or "out of memory" in s.lower():
+            r["status"] = "ERROR"
+    return res
+
+
+def run_crate(crate, harnesses, build, env, tier, extra_args=None):
+    cdir = os.path.join(ROOT, "kani", crate)
+    lock = os.path.join(cdir, "Cargo.lock")
+    if not os.path.exists(lock):
+        shutil.copy("/repo/Cargo.lock", lock)
+    cmd = ["cargo", "kani", "-Z", "stubbing", "--target-dir", os.path.join(build, "kani-" + crate), "--output-format", "terse"]
+    for h in harnesses:
+        cmd += ["--harness", h]
+    cmd += extra_args or []
+    tmo = 1500 if tier == "quick" else 3 * 3600
+    t0 = time.time()
+    # memory cap: 24 GB virtual per run
+    shell = "ulimit -v 25165824; exec " + " ".join("'" + c + "'" for c in cmd)
+    try:
+        p = subprocess.run(["bash", "-c", shell], cwd=cdir, env=env, stdout=subprocess.PIPE, stderr=subprocess.STDOUT, timeout=tmo)
+        out = p.stdout.decode(errors="replace")
+        rc = p.returncode
+    except subprocess.TimeoutExpired as e:
+        out = (e.stdout or b"").decode(errors="replace") + "\nTIMEOUT"
+        rc = 124
+    log = os.path.join(build, "parts", f"kani-{crate}.log")
+    os.makedirs(os.path.dirname(log), exist_ok=True)
+    open(log, "w").write(out)
+    return rc, out, time.time() - t0
 
 
 def run(pid, tier, seed, build, env):
-    return {"engine": "E2-kani", "paths": 0, "decisions": 0, "n_obligations": 0, "held": 0, "inconclusive": [f"no Kani harnesses registered for {pid}"],
-            "findings": [], "samples": [], "functions_encoded": [], "bounds": [], "assumptions": [], "stubs": [], "solver_s": 0, "solvers": "CBMC 6.11 + cadical (Kani 0.68)"}
+    reg = json.load(open(os.path.join(ROOT, "kani", "harnesses.json")))
+    items = [h for h in reg.get(pid, []) if tier == "thorough" or not h.get("thorough_only")]
+    part = {"engine": "E2-kani", "paths": 0, "decisions": 0, "n_obligations": 0, "held": 0, "inconclusive": [], "findings": [], "samples": [],
+            "functions_encoded": [], "bounds": ["all values of every kani::any() input (64-bit integers, byte arrays) within the unwinding bounds of each harness; unwinding assertions on"],
+            "assumptions": ["Kani/CBMC model of the compiled MIR; CBMC 6.11 + cadical"], "stubs": [], "solver_s": 0, "solvers": "CBMC 6.11 + cadical (Kani 0.68)",
+            "obligation_records": [], "distinct_nontrivial": 0, "notes": []}
+    if not items:
+        part["inconclusive"].append(f"no Kani harnesses registered for {pid}")
+        return part
+    by_crate = {}
+    for h in items:
+        by_crate.setdefault(h["crate"], []).append(h)
+    for crate, hs in by_crate.items():
+        part["functions_encoded"] += FUNCS.get(crate, [])
+        if crate == "arith":
+            part["stubs"].append("<zkabacus_crypto::Error as Display>::fmt -> empty body in the decode harnesses (formatting of the rejection message is not the subject; 185 s -> 1 s)")
+        if crate in ("arith", "range"):
+            part["stubs"].append("bls12_381 -> canonical-integer stand-in kani/shim-int (exact +,-,neg and u64 embedding; junk multiplication); sha3 -> constant digest")
+        rc, out, wall = run_crate(crate, [h["harness"] for h in hs], build, env, tier)
+        res = parse(out)
+        part["solver_s"] += round(wall, 1)
+        if not res:
+            part["inconclusive"].append(f"cargo kani produced no harness results for crate {crate} (exit {rc}); see build/parts/kani-{crate}.log: " + out[-400:])
+            continue
+        for h in hs:
+            name = h["harness"]
+            r = res.get(name)
+            expect = h.get("expect", "success")
+            part["n_obligations"] += 1
+            part["paths"] += 1
+            part["decisions"] += 1
+            rec = {"name": f"kani {crate}::{name}", "kind": "CBMC", "smt_bytes": 1}
+            if r is None or r["status"] is None:
+                rec["verdict"] = "inconclusive"
+                part["inconclusive"].append(f"kani harness {name}: no verdict (timeout / crash)")
+            elif r["status"] == "ERROR" or r["unwind_fail"]:
+                rec["verdict"] = "inconclusive"
+                part["inconclusive"].append(f"kani harness {name}: {'unwinding bound too small' if r['unwind_fail'] else 'CBMC error / out of memory'}")
+            elif expect == "fail":
+                if r["status"] == "FAILED":
+                    rec["verdict"] = "held"
+                    part["held"] += 1
+                    rec["note"] = "vacuity witness came back violated, as required"
+                else:
+                    rec["verdict"] = "inconclusive"
+                    part["inconclusive"].append(f"kani vacuity witness {name} did not fail: the harness family may be vacuous")
+            elif r["status"] == "SUCCESSFUL":
+                rec["verdict"] = "held"
+                part["held"] += 1
+            else:
+                rec["verdict"] = "violated"
+                what = "; ".join(sorted(set(r["failed"])))[:300]
+                part["findings"].append({"key": f"{pid} kani {name}: {what}", "detail": f"Kani harness {crate}::{name} failed: {what}", "model": None,
+                                         "replay": {"kind": "kani", "crate": crate, "harness": name}})
+            rec["solver_ms"] = (r or {}).get("time") and round(r["time"] * 1000)
+            part["obligation_records"].append(rec)
+            part["samples"].append({"harness": f"{crate}::{name}", "status": (r or {}).get("status"), "failed_checks": (r or {}).get("failed"), "cbmc_s": (r or {}).get("time")})
+    part["distinct_nontrivial"] = part["n_obligations"]
+    return part
